@@ -16,6 +16,11 @@ struct St {
     fj: bool,
     /// 0 undefined, 1 suspended after its first call, 2 finished
     sf: u8,
+    /// a chain of two fibers died from an uncaught throw in the inner one
+    fo: bool,
+    /// closures that escaped from frames discarded by an uncaught throw (plain call / fiber)
+    esc: bool,
+    escf: bool,
     m_global: bool,
     m_loaded: bool,
     m_v: i64,
@@ -43,8 +48,14 @@ const SNIPPETS: &[(&str, &str)] = &[
     ("probe_try_finally", "try { print(\"t\"); } finally { print(\"f\"); }\nprint(\"after\");\n"),
     ("probe_try_catch", "try { throw \"x\"; } catch e { print(e); }\nprint(\"after\");\n"),
     ("probe_class_and_loop", "class P { fn m(self) { return 1; } }\nvar n = 0;\nfor i in 0..3 { n += i; }\nprint(n);\n"),
-    ("make_suspended_fiber", "var sf = Fiber.new(|| { Fiber.yield(1); return 2; });\nprint(sf.call());\n"),
+    ("make_suspended_fiber", "var sf = Fiber.new(|| { try { Fiber.yield(1); } finally { print(\"sf finally\"); } return 2; });\nprint(sf.call());\n"),
     ("resume_fiber", "print(sf.call());\nprint(sf.has_finished());\n"),
+    ("probe_dead_fiber", "print(fj.has_finished());\nfj.call();\n"),
+    ("throw_through_two_fibers", "var fi = Fiber.new(|| { throw \"inner fiber\"; });\nvar fo = Fiber.new(|| { fi.call(); print(\"not reached\"); });\nfo.call();\n"),
+    ("probe_dead_fiber_chain", "print(fi.has_finished());\nprint(fo.has_finished());\nfo.call();\n"),
+    ("closure_escapes_then_throw", "var esc = nil;\nfn mk() { var x = \"kept\"; esc = || x; throw \"after escape\"; }\nmk();\n"),
+    ("closure_escapes_in_fiber_then_throw", "var escf = nil;\nFiber.new(|| { var y = \"kept in fiber\"; escf = || y; throw \"after escape in fiber\"; }).call();\n"),
+    ("probe_escaped_closures", "var junk = [];\nfor i in 0..40 { junk.push(\"s${i}\"); }\nprint(esc());\nprint(escf());\n"),
     ("import_m", "import \"m\";\nprint(m.v);\n"),
     ("bump_m", "m.v = m.v + 1;\nprint(m.v);\n"),
     ("reset", "\u{0}reset"),
@@ -125,10 +136,45 @@ fn step(s: &St, name: &str) -> (St, Vec<String>, String) {
             0 => (n, vec![], name_err("sf")),
             1 => {
                 n.sf = 2;
-                (n, vec!["2".into(), "true".into()], ok)
+                (n, vec!["sf finally".into(), "2".into(), "true".into()], ok)
             }
             _ => (n, vec![], "Unhandled RuntimeError: Cannot call a finished fiber.".into()),
         },
+        "probe_dead_fiber" => {
+            if s.fj {
+                (n, vec!["true".into()], "Unhandled RuntimeError: Cannot call a finished fiber.".into())
+            } else {
+                (n, vec![], name_err("fj"))
+            }
+        }
+        "throw_through_two_fibers" => {
+            n.fo = true;
+            (n, vec![], "Unhandled exception: inner fiber".into())
+        }
+        "probe_dead_fiber_chain" => {
+            if s.fo {
+                (n, vec!["true".into(), "true".into()], "Unhandled RuntimeError: Cannot call a finished fiber.".into())
+            } else {
+                (n, vec![], name_err("fi"))
+            }
+        }
+        "closure_escapes_then_throw" => {
+            n.esc = true;
+            (n, vec![], "Unhandled exception: after escape".into())
+        }
+        "closure_escapes_in_fiber_then_throw" => {
+            n.escf = true;
+            (n, vec![], "Unhandled exception: after escape in fiber".into())
+        }
+        "probe_escaped_closures" => {
+            if !s.esc {
+                (n, vec![], name_err("esc"))
+            } else if !s.escf {
+                (n, vec!["kept".into()], name_err("escf"))
+            } else {
+                (n, vec!["kept".into(), "kept in fiber".into()], ok)
+            }
+        }
         "import_m" => {
             let mut out = Vec::new();
             if !s.m_loaded {
@@ -190,7 +236,7 @@ pub fn run(ctx: &Ctx) -> Report {
             let snippets: Vec<String> = p2.iter().map(|nm| SNIPPETS.iter().find(|(k, _)| k == nm).unwrap().1.to_string()).collect();
             cases.push(Expect {
                 family: "history_replay",
-                request: Request { op: "run".into(), snippets, modules: modules.clone(), fuel: Some(1_000_000), ..Default::default() },
+                request: Request { op: "run".into(), snippets, modules: modules.clone(), fuel: Some(1_000_000), gc: Some(proto::GcSpec { mode: "default".into(), only: vec![], quarantine: true }), want: vec!["uaf".into()], ..Default::default() },
                 out: o2.clone(),
                 end: e2.clone(),
                 describe: json!({"history": p2}),
@@ -206,11 +252,11 @@ pub fn run(ctx: &Ctx) -> Report {
     // construction (reset -> initial state); additionally every single snippet right after
     // <failing snippet>, reset
     let n_cases = cases.len();
-    let stats = expect::run_expect(ctx, &ctx.runner_checked, cases.into_iter(), &|_e, _r| None, &|_e, _p| None);
+    let stats = expect::run_expect(ctx, &ctx.runner_checked, cases.into_iter(), &|_e, r| if r.uaf.is_empty() { None } else { Some(format!("use after free: {:?}", r.uaf)) }, &|_e, _p| None);
     expect::fill(
         &mut report,
         &stats,
-        "breadth-first search over histories of snippets fed to one interpreter, with canonical reference state (surviving globals, functions, classes, fiber objects, loaded modules); alphabet of 22 snippets: definitions and uses, a compile error, uncaught throws at top level / two calls deep / inside a fiber / inside try-finally / while a class is half-declared / from a built-in inside a method, clean try/finally, try/catch and class+loop probes, a fiber left suspended and resumed by a later snippet, import and module mutation, reset. Every transition is replayed as the shortest history reaching its source state plus the snippet, on a fresh real interpreter; each snippet's printed lines and outcome must equal the model's; no snippet may panic.",
+        "breadth-first search over histories of snippets fed to one interpreter, with canonical reference state (surviving globals, functions, classes, fiber objects, loaded modules); alphabet of 28 snippets: definitions and uses, a compile error, uncaught throws at top level / two calls deep / inside a fiber / inside try-finally / while a class is half-declared / from a built-in inside a method, clean try/finally, try/catch and class+loop probes, a fiber left suspended inside try/finally and resumed by a later snippet, probes of a fiber that died from an uncaught throw and of a chain of two such fibers (both must be finished), closures that escaped into globals from a call frame / a fiber discarded by an uncaught throw and are called later (swept objects quarantined: any touch of freed memory is a violation), import and module mutation, reset. Every transition is replayed as the shortest history reaching its source state plus the snippet, on a fresh real interpreter; each snippet's printed lines and outcome must equal the model's; no snippet may panic.",
         json!({"history_length": depth, "snippets": SNIPPETS.len()}),
     );
     report.cov("states", json!(states));
